@@ -367,6 +367,33 @@ def run(ck, facts, tier):
                      sample="Some(%s(arr[[idx(lhs), idx(rhs)]]))" % variant)
         except Unsupported as e:
             ck.fail(r6, "rate[%s]" % variant, "rule could not be established (%s)" % e, where)
+    # ---------------- R09.9 a quote is stored as given
+    r9 = ck.rule("R09.9", "FXRate::try_new stores pair = FXPair::try_new(lhs, rhs)? with rate and settlement as given (the quote the market is built from is the quote "
+                          "the caller wrote); Python's FXRate(...) is that constructor with its arguments as given", floor=2)
+    fq = facts.fn("fx::rates::fxrate::FXRate::try_new")
+    if fq is None:
+        ck.fail(r9, "FXRate::try_new", "constructor not found")
+    else:
+        names = [p_.get("name") for p_ in fq["params"]]
+        try:
+            got = cel.strip_early(cel.Ev(facts, hooks={"fx::rates::fxpair::FXPair::try_new": lambda ev, vals, e: Sym("pair", *[vkey(v) for v in vals])}).apply_fn(fq["fn"], [Sym("param", n_) for n_ in names], 0))
+            x = got.tag[2] if isinstance(got, Sym) and got.tag[:2] == ("ctor", "Ok") and len(got.tag) == 3 else None
+            ok = isinstance(x, Rec) and vkey(x.fields.get("pair")) == vkey(Sym("pair", vkey(Sym("param", "lhs")), vkey(Sym("param", "rhs")))) and \
+                vkey(x.fields.get("rate")) == vkey(Sym("param", "rate")) and vkey(x.fields.get("settlement")) == vkey(Sym("param", "settlement"))
+            ck.check(r9, "FXRate::try_new", ok, "the quote is not stored as given: %s" % cel.vfmt(got)[:300], "%s:%d" % (fq["file"], fq["line"]), sample="FXRate{pair: FXPair::try_new(lhs, rhs)?, rate, settlement}")
+        except Unsupported as e:
+            ck.fail(r9, "FXRate::try_new", "rule could not be established (%s)" % e, "%s:%d" % (fq["file"], fq["line"]))
+    fw = facts.fn("fx::rates_py::<impl fx::rates::fxrate::FXRate>::new_py")
+    if fw is None:
+        ck.fail(r9, "FXRate::new_py", "wrapper not found")
+    else:
+        names = [p_.get("name") for p_ in fw["params"]]
+        try:
+            got = cel.strip_early(cel.Ev(facts, hooks={"fx::rates::fxrate::FXRate::try_new": lambda ev, vals, e: Sym("quote", *[vkey(v) for v in vals])}).apply_fn(fw["fn"], [Sym("param", n_) for n_ in names], 0))
+            ck.check(r9, "FXRate::new_py", vkey(got) == vkey(Sym("quote", *[vkey(Sym("param", n_)) for n_ in names])), "FXRate(...) is not FXRate::try_new with its arguments as given: %s" % cel.vfmt(got)[:300],
+                     "%s:%d" % (fw["file"], fw["line"]), sample="FXRate::try_new(lhs, rhs, rate, settlement)")
+        except Unsupported as e:
+            ck.fail(r9, "FXRate::new_py", "rule could not be established (%s)" % e, "%s:%d" % (fw["file"], fw["line"]))
     # "rejected ... and never yield rates", "returned exactly as quoted" also after updates and derivative-order switches: the market's state rules (C10 R10.3-R10.6)
     # "invalid quote sets are rejected and never yield rates" also when they arrive as a stored market: the loader goes through try_new (C20 S20.2)
     from rules import c20
